@@ -1283,6 +1283,14 @@ class Prop(Check):
                 if tmp.get("probe"):
                     ld["probe"] = tmp["probe"]
             case["loads"].append(ld)
+        # a library reference may wait for a reference of one of the main models: in that load it resolves, in the
+        # loads without that main model it never does (whatever an earlier load did to the library file)
+        if lib_ids and rng.chance(0.2):
+            k = rng.choice(lib_ids)
+            ld = rng.choice(case["loads"])
+            tab = {i: ds for i, ds in case["deps"]}
+            tab[k] = tab.get(k, []) + [rng.choice(sorted(file_refs({"elems": ld["elems"]})))]
+            case["deps"] = [[i, tab[i]] for i in sorted(tab)]
         return case
 
     def nontrivial(self, case, obs):
